@@ -55,10 +55,10 @@ Init == /\ MemInit
         /\ budget = [t \in Threads |-> MaxOps]
         /\ flushed = [t \in Threads |-> FALSE]
         /\ bad = "ok"
-        /\ last = [t |-> -1, k |-> "init", lab |-> "init", v |-> 0, ok |-> 1]
+        /\ last = [t |-> -1, k |-> "init", lab |-> "init", v |-> 0, ok |-> 1, n |-> 0]
 
 Goto(t, l) == pc' = [pc EXCEPT ![t] = l]
-Acc(t, k, lab, v, ok) == last' = [t |-> t, k |-> k, lab |-> lab, v |-> v, ok |-> ok]
+Acc(t, k, lab, v, ok) == last' = [t |-> t, k |-> k, lab |-> lab, v |-> v, ok |-> ok, n |-> last.n + 1]    \* n: access counter
 UG == UNCHANGED <<guards, hint, rlist, nstate, budget, flushed, bad>>
 
 \* ---------------------------------------------------------------- client: start of operations
